@@ -1,4 +1,5 @@
 """C13 - collection and query functions agree with their reference model."""
+import collections.abc
 import re
 
 from hypothesis import strategies as st
@@ -172,13 +173,23 @@ def check_single(run, case):
     binds['c'] = _materialise(kind, L)
     for k in ('o', 'c2'):
         if k in args:
-            binds[k] = tuple(args[k])
+            # collection-typed *arguments* arrive as one-shot iterators too
+            # (when the expression mentions them once)
+            lazy = case.get('argkind') == 'iter' and \
+                len(re.findall(r'\$%s\b' % k, text)) == 1
+            binds[k] = iter(list(args[k])) if lazy else tuple(args[k])
     binds['tree'] = yutils.FrozenDict(
         {k: tuple(v) for k, v in M.TREE.items()})
-    exp = _model(e.model, L, _env(args, lam, L, kind))
+    env = _env(args, lam, L, kind)
+    if isinstance(binds.get('o'), collections.abc.Iterator):
+        env['okind'] = 'iter'
+    exp = _model(e.model, L, env)
     got = _evaluate(text, binds)
     run.case(case, _nontrivial(L, kind, args),
-             cls=['single', 'fn=' + case['fn'], 'kind=' + kind])
+             cls=['single', 'fn=' + case['fn'], 'kind=' + kind] + (
+                 ['lazy-argument'] if any(isinstance(
+                     binds.get(k), collections.abc.Iterator)
+                     for k in ('o', 'c2')) else []))
     _judge(run, case, '%s with c=%r(%s) %r' % (text, L, kind, args), exp, got,
            case['fn'] + '/' + kind, e.char)
 
@@ -444,6 +455,7 @@ def single_cases(draw):
                           max_size=7))
     args, lam = draw(_args_for(e, L, fn))
     return {'fn': fn, 'c': L, 'ckind': draw(st.sampled_from(e.kinds)),
+            'argkind': draw(st.sampled_from(['tuple', 'iter'])),
             'args': {k: common.enc(v) for k, v in args.items()}, 'lam': lam}
 
 
@@ -551,6 +563,7 @@ def _normalise_single(c):
     """replay format: {'kind': <collection kind>, 'fn', 'c', 'args', 'lam'}
     dispatched through REPLAY['single'] by the 'replay' key"""
     return {'kind': c['ckind'], 'fn': c['fn'], 'c': c['c'],
+            'argkind': c.get('argkind', 'tuple'),
             'args': c['args'], 'lam': c['lam'], 'replay': 'single'}
 
 
